@@ -454,6 +454,7 @@ impl ParsedValue {
         values: &LocalesOrNamespaces,
         top_locale: &Key,
         default_locale: &Key,
+        extensions: &BTreeMap<Key, Key>,
         key_path: &KeyPath,
     ) -> Result<()> {
         let ForeignKey::NotSet(foreign_key_path, args) = &*foreign_key else {
@@ -478,22 +479,54 @@ impl ParsedValue {
             if top_locale == default_locale {
                 return Err(Error::ExplicitDefaultInDefault(key_path.to_owned()).into());
             } else {
+                // an explicit default takes the value of the first locale of the `inherits` chain
+                // defining the key, or of the default locale if the chain ends or loops
+                // (same walk as `DefaultedLocales::default_of`).
+                let mut visited_locales = vec![top_locale];
+                let mut current_locale = top_locale;
+                let next_locale = loop {
+                    match extensions.get(current_locale) {
+                        Some(next_locale) if !visited_locales.contains(&next_locale) => {
+                            match values.get_value_at(next_locale, foreign_key_path) {
+                                Some(ParsedValue::Default) | None => {
+                                    visited_locales.push(next_locale);
+                                    current_locale = next_locale;
+                                }
+                                Some(_) => break next_locale,
+                            }
+                        }
+                        _ => break default_locale,
+                    }
+                };
                 return Self::resolve_foreign_key_inner(
                     foreign_key,
                     values,
+                    next_locale,
                     default_locale,
-                    default_locale,
+                    extensions,
                     key_path,
                 );
             }
         }
 
         // possibility that the foreign key must be resolved too
-        value.resolve_foreign_key(values, top_locale, default_locale, foreign_key_path)?;
+        value.resolve_foreign_key(
+            values,
+            top_locale,
+            default_locale,
+            extensions,
+            foreign_key_path,
+        )?;
 
         // possibility that args must resolve too
         for arg in args.values() {
-            arg.resolve_foreign_key(values, top_locale, default_locale, foreign_key_path)?;
+            arg.resolve_foreign_key(
+                values,
+                top_locale,
+                default_locale,
+                extensions,
+                foreign_key_path,
+            )?;
         }
 
         let value = value.populate(args, foreign_key_path, top_locale, key_path)?;
@@ -508,20 +541,27 @@ impl ParsedValue {
         values: &LocalesOrNamespaces,
         top_locale: &Key,
         default_locale: &Key,
+        extensions: &BTreeMap<Key, Key>,
         path: &KeyPath,
     ) -> Result<()> {
         match self {
             ParsedValue::Variable { .. } | ParsedValue::Literal(_) | ParsedValue::Default => Ok(()),
             ParsedValue::Subkeys(_) => Ok(()), // unreachable ?
             ParsedValue::Ranges(inner) => {
-                inner.resolve_foreign_keys(values, top_locale, default_locale, path)
+                inner.resolve_foreign_keys(values, top_locale, default_locale, extensions, path)
             }
             ParsedValue::Component { inner, .. } => {
-                inner.resolve_foreign_key(values, top_locale, default_locale, path)
+                inner.resolve_foreign_key(values, top_locale, default_locale, extensions, path)
             }
             ParsedValue::Bloc(bloc) => {
                 for value in bloc {
-                    value.resolve_foreign_key(values, top_locale, default_locale, path)?;
+                    value.resolve_foreign_key(
+                        values,
+                        top_locale,
+                        default_locale,
+                        extensions,
+                        path,
+                    )?;
                 }
                 Ok(())
             }
@@ -539,14 +579,21 @@ impl ParsedValue {
                     values,
                     top_locale,
                     default_locale,
+                    extensions,
                     path,
                 )
             }
             ParsedValue::Plurals(Plurals { forms, other, .. }) => {
                 for value in forms.values() {
-                    value.resolve_foreign_key(values, top_locale, default_locale, path)?;
+                    value.resolve_foreign_key(
+                        values,
+                        top_locale,
+                        default_locale,
+                        extensions,
+                        path,
+                    )?;
                 }
-                other.resolve_foreign_key(values, top_locale, default_locale, path)
+                other.resolve_foreign_key(values, top_locale, default_locale, extensions, path)
             }
         }
     }
